@@ -76,6 +76,9 @@ fn edits() -> Vec<Move> {
         e("r0", &["put r0.r changed", "ev F:r0.r", "hr"]),
         e("x", &["put x.l 17", "ev F:x.l", "hr"]),
         e("t.n-touch", &["ev F:t.n", "hr"]),
+        // the leaf whose load failed inside the script is created and loaded by somebody else (no pass):
+        // the script's asset asked for it, so it must follow that leaf's later reloads
+        e("x created+loaded", &["put x.l 19", "load L x"]),
         // the main cache's OWN asset with the id that scripts look up through the other cache
         e("z0(main)", &["put z0.l 51", "ev F:z0.l", "hr"]),
     ]
@@ -85,7 +88,7 @@ pub fn run(args: &Args) -> SubResult {
     let mut res = SubResult::new("C14", "c14_attrib");
     let thorough = args.thorough();
     let sc = scripts(thorough);
-    res.bound = format!("{} scripts (sequences of <= {} items; items = 9 atoms, each also inside no_record / helper-thread blocks, other-cache blocks, depth-2 nestings) x 11 single-entry edits, each followed by a second edit round (depth 2); two caches; hash seeds 0/5 alternating", sc.len(), if thorough { 3 } else { 2 });
+    res.bound = format!("{} scripts (sequences of <= {} items; items = 9 atoms, each also inside no_record / helper-thread blocks, other-cache blocks, depth-2 nestings) x 12 moves (11 single-entry edits + creation and top-level load of the leaf whose nested load failed), each followed by a second edit round (depth 2); two caches; hash seeds 0/5 alternating", sc.len(), if thorough { 3 } else { 2 });
     res.rule = "per script: history = load; edit one entry; notify exactly it; quiesce; hot_reload (x every entry, then x every second entry with deduplication); oracle = reference evaluator's attribution rules closed under dependents vs. the set of handles whose reload id grew (and their values); distinct = distinct (canonical state, observations)".into();
     let total = sc.len();
     vcommon::run_cases(args, res, total, std::time::Duration::from_secs(if thorough { 3000 } else { 300 }), |idx, res| {
@@ -104,7 +107,7 @@ pub fn run(args: &Args) -> SubResult {
             check_ledger: true,
             check_presence: false,
         };
-        let deep = thorough || (idx + args.seed as usize) % 7 == 0;
+        let deep = thorough || (idx + args.seed as usize) % 7 == 0 || (script.contains("l:x") && script.split_whitespace().count() <= 3);
         let s = Search { harness: "c14_attrib", cfg, init: vec!["load L z0".into(), "load N t".into()], moves: vec![edits()], depth: if deep { 2 } else { 1 }, dedup: true, max_hist: 0 };
         run_search(res, &s);
     })
